@@ -150,16 +150,65 @@ _WS_POOL = ["", " ", "\n", "\t ", " \r\n"]
 
 
 def _sample_regex(rng, pat):
-    """Tiny sampler for the whitespace / character-class patterns used in ghost requirements."""
-    import re as _re
+    """A random string of the language of a (simple) regular expression: literals, classes, ranges, \\d \\s \\w,
+    groups, alternation, ? * + {m,n} (repetitions capped at 3).  None if the pattern uses anything else."""
+    try:
+        import re._parser as sp
+        import re._constants as sc
+    except ImportError:  # pragma: no cover
+        import sre_parse as sp
+        import sre_constants as sc
 
-    m = _re.fullmatch(r"\[(.+)\]([*+]?)", pat)
-    if not m:
+    def cls(items):
+        pool, neg = [], False
+        for op, av in items:
+            if op is sc.NEGATE:
+                neg = True
+            elif op is sc.LITERAL:
+                pool.append(chr(av))
+            elif op is sc.RANGE:
+                lo, hi = av
+                pool += [chr(lo), chr(hi), chr(rng.randint(lo, hi))]
+            elif op is sc.CATEGORY:
+                pool += {sc.CATEGORY_DIGIT: list("059"), sc.CATEGORY_SPACE: list(" \t\n"), sc.CATEGORY_WORD: list("aZ_5")}.get(av, [])
+            else:
+                raise ValueError
+        if neg:
+            cands = [c for c in "aZ5 _-:.{}\n" if c not in pool]
+            return rng.choice(cands) if cands else "\x7f"
+        return rng.choice(pool)
+
+    def seq(items):
+        out = []
+        for op, av in items:
+            if op is sc.LITERAL:
+                out.append(chr(av))
+            elif op is sc.NOT_LITERAL:
+                out.append(rng.choice([c for c in "aZ5 _-" if c != chr(av)]))
+            elif op is sc.ANY:
+                out.append(rng.choice("aZ5 _-:."))
+            elif op is sc.IN:
+                out.append(cls(av))
+            elif op is sc.SUBPATTERN:
+                out.append(seq(av[3]))
+            elif op is sc.BRANCH:
+                out.append(seq(rng.choice(av[1])))
+            elif op in (sc.MAX_REPEAT, sc.MIN_REPEAT):
+                lo, hi, sub = av
+                hi = lo + 3 if hi is sc.MAXREPEAT or hi > lo + 3 else hi
+                out.append("".join(seq(sub) for _ in range(rng.randint(lo, hi))))
+            elif op is sc.AT:
+                continue
+            elif op is sc.CATEGORY:
+                out.append(cls([(op, av)]))
+            else:
+                raise ValueError
+        return "".join(out)
+
+    try:
+        return seq(sp.parse(pat.encode().decode("unicode_escape") if "\\" in pat else pat))
+    except Exception:
         return None
-    chars = list(m.group(1).encode().decode("unicode_escape"))
-    lo = 1 if m.group(2) == "+" else (0 if m.group(2) == "*" else 1)
-    hi = lo if m.group(2) == "" else 3
-    return "".join(rng.choice(chars) for _ in range(rng.randint(lo, hi)))
 
 
 def _bounds(requires, g):
